@@ -279,8 +279,9 @@ namespace avel {
         typename std::enable_if<N < mask16x16u::width, int>::type dummy_variable = 0;
 
         #if (defined(AVEL_AVX512VL) && defined(AVEL_AVX512BW)) || defined(AVEL_AVX10_1)
-        auto mask = b << N;
-        return mask16x16u{__mmask16((decay(m) & ~mask) | mask)};
+        auto bit = std::uint64_t(1) << N;
+        auto mask = std::uint64_t(b) << N;
+        return mask16x16u{__mmask16((decay(m) & ~bit) | mask)};
 
         #elif defined(AVEL_AVX2)
         return mask16x16u{_mm256_insert_epi16(decay(m), b ? - 1 : 0, N)};
